@@ -65,6 +65,10 @@ PARAM_TEMPLATES = [
     ('SELECT verif_fault(a, 0) AS f, {0} - a AS x FROM #t0', ['int'], ('fault',)),
     ('SELECT a, a * {0} AS y FROM #t1 WHERE a != {1}', ['int', 'int'], ('late',)),
     ('SELECT {0} AS p, {0} AS q, a - {1} AS r, {1} - a AS s FROM #t0', ['int', 'int'], ('repeat',)),
+    ('SELECT {0} AS v, b + {1} AS w FROM #t0 LIMIT 3', ['dec', 'dec'], ('typed',)),
+    ('SELECT {0} AS v, a FROM #t0 WHERE a < {1}', ['int', 'int'], ('typed',)),
+    ('SELECT {0} AS flag, a FROM #t0 WHERE e OR {1}', ['bool', 'bool'], ('typed',)),
+    ('SELECT coalesce(e, {0}) AS f, NOT {1} AS g, a FROM #t0', ['bool', 'bool'], ('typed',)),
     # textual order differs from the order in which the compiler visits the clauses (FROM first, ORDER BY last)
     ('SELECT {0} AS k, x FROM (SELECT a AS x FROM #t0 WHERE a > {1}) WHERE x < {2}', ['int', 'int', 'int'], ('subq', 'clauseorder')),
     ('SELECT {0} AS tag, account, number FROM year = {1} WHERE number > {2}', ['str', 'year', 'dec'], ('from', 'clauseorder')),
@@ -150,6 +154,19 @@ def gen_slot(rng, t):
     if t == 'int' and rng.random() < 0.2:
         return rng.choice([0, 1, 2])
     return world.gen_value(rng, t)
+
+
+def twin(rng, v):
+    """A value that is == v in Python but a different BQL constant (type or decimal exponent)."""
+    import decimal
+    if isinstance(v, bool):
+        return int(v)
+    if isinstance(v, int):
+        return bool(v) if v in (0, 1) and rng.random() < 0.5 else decimal.Decimal(v)
+    if isinstance(v, decimal.Decimal):
+        return v.quantize(decimal.Decimal(1).scaleb(v.as_tuple().exponent - 1)) if rng.random() < 0.7 else (
+            int(v) if v == v.to_integral_value() else v.quantize(decimal.Decimal(1).scaleb(v.as_tuple().exponent - 2)))
+    return v
 
 
 def base_type(t):
@@ -282,8 +299,12 @@ def generate(rng, tier, run):
             elif kind == 'executemany':
                 i = rng.choice(param_idx)
                 mode = rng.choice(['pos', 'named'])
-                sets = [[world.enc(v) for v in gen_vals(rng, pool[i])] for _ in range(rng.choice([0, 1, 2, 2, 3]))]
-                ops.append({'op': 'executemany', 'stmt': i, 'mode': mode, 'sets': sets})
+                sets = [gen_vals(rng, pool[i]) for _ in range(rng.choice([0, 1, 2, 2, 3]))]
+                if sets and rng.random() < 0.4:
+                    # a parameter set that compares equal (Python ==) to its neighbour but is a different BQL value
+                    at = rng.randrange(len(sets))
+                    sets.insert(at + rng.choice([0, 1]), [twin(rng, v) for v in sets[at]])
+                ops.append({'op': 'executemany', 'stmt': i, 'mode': mode, 'sets': [[world.enc(v) for v in s_] for s_ in sets]})
             elif kind == 'fold':
                 tpl, types_ = rng.choice(FOLD_EXPRS)
                 ops.append({'op': 'fold', 'expr': tpl, 'types': [base_type(t) for t in types_],
